@@ -930,6 +930,24 @@ class Pass2(CompilePass):
             raise CompileError(EC.TYPE_MISMATCH,
                                node=node.command_string)
 
+    def process_kill_pre(self, node):
+        if node.filespec.type != Type.STRING:
+            raise CompileError(EC.TYPE_MISMATCH, node=node.filespec)
+
+    def process_bload_pre(self, node):
+        if node.filespec.type != Type.STRING:
+            raise CompileError(EC.TYPE_MISMATCH, node=node.filespec)
+        if not node.offset.type.is_numeric:
+            raise CompileError(EC.TYPE_MISMATCH, node=node.offset)
+
+    def process_bsave_pre(self, node):
+        if node.filespec.type != Type.STRING:
+            raise CompileError(EC.TYPE_MISMATCH, node=node.filespec)
+        if not node.offset.type.is_numeric:
+            raise CompileError(EC.TYPE_MISMATCH, node=node.offset)
+        if not node.length.type.is_numeric:
+            raise CompileError(EC.TYPE_MISMATCH, node=node.length)
+
 
 class Pass3(CompilePass):
     # This pass does the following:
